@@ -21,6 +21,9 @@ Rule family R8 (bit algebra normal form) on Bits._compile / init / unpack / pack
      configuration that has no endianness key (big-endian whatever the class says);
  (f) init zeroes the shared slot at the first member.
 The arithmetic of Python ints is trusted.
+
+Round 4: clauses (c), (d) and the mask of (a) are decided on the bit-provenance normal form
+(bistat/bitprov.py) with the masks as __init__ and _compile define them.
 """
 import ast
 import copy
